@@ -63,6 +63,8 @@ run_directed = directed.run
 
 
 def cases(tier, rng):
+    for c in directed.error_function_called_every_time_cases():
+        yield "directed-error-function-called-every-time", c
     for c in directed.callable_exception_instance_cases():
         yield "directed-callable-exception-instance", c
     for c in directed.error_functions_sharing_code_cases():
